@@ -4,6 +4,7 @@ import (
 	"context"
 	"crypto/tls"
 	"encoding/json"
+	"errors"
 	"fmt"
 	"net/http"
 	"time"
@@ -125,6 +126,9 @@ func (c *elasticClient) Get(ctx context.Context, url string) (data map[string]in
 	}
 	defer resp.Body.Close()
 	decoder := json.NewDecoder(resp.Body)
-	err = decoder.Decode(&data)
+	if err = decoder.Decode(&data); err == nil && data == nil {
+		// JSON null is decoded into nil map without error
+		err = errors.New("invalid JSON object")
+	}
 	return
 }
